@@ -3,6 +3,7 @@
   FLOOR, INT, EVEN, ODD, QUOTIENT, MOD, SIGN, FACT, FACTDOUBLE, COMPLEX parts) on exact rationals.
 -/
 import HotXL.Lemmas.Round
+import HotXL.Lemmas.PowGuard
 import Mathlib.Tactic.Positivity
 import Mathlib.Tactic.FieldSimp
 import Mathlib.Tactic.Ring
@@ -468,17 +469,56 @@ theorem dfact_eq : ∀ n : Nat, dfact n = n.doubleFactorial
 theorem trunc_natCast (n : Nat) : (ratTrunc ((n : Int) : Rat)).toNat = n := by
   rw [ratTrunc_nonneg _ (by exact_mod_cast Int.natCast_nonneg n), Rat.floor_intCast]; simp
 
-theorem fact_nat (n : Nat) : FACT [.num (.int n)] = .ok (.num (.int (n.factorial : Nat))) := by
-  have h : ¬ (((n : Int) : Rat) < 0) := not_lt.mpr (by exact_mod_cast Int.natCast_nonneg n)
-  simp only [FACT, parseNumber_num, Num.toRat, if_neg h, trunc_natCast, fact_eq]
+/-- the casts of the generated range constants, as rational literals -/
+theorem factLimit_cast : ((Generated.factLimit : Int) : Rat) = 171 := by simp [Generated.factLimit]
+theorem factdoubleLimit_cast : ((Generated.factdoubleLimit : Int) : Rat) = 301 := by simp [Generated.factdoubleLimit]
+theorem roundDirMax_cast (up : Bool) : ((roundDirMax up : Int) : Rat) = 1074 := by
+  cases up <;> simp [roundDirMax, Generated.roundupDigitsMax, Generated.rounddownDigitsMax]
 
-theorem factdouble_nat (n : Nat) : FACTDOUBLE [.num (.int n)] = .ok (.num (.int (n.doubleFactorial : Nat))) := by
-  have h : ¬ (((n : Int) : Rat) < 0) := not_lt.mpr (by exact_mod_cast Int.natCast_nonneg n)
-  simp only [FACTDOUBLE, parseNumber_num, Num.toRat, if_neg h, trunc_natCast, dfact_eq]
+/-- FACT inside its range `0 ≤ x < 171`: the factorial of the truncated number -/
+theorem fact_value (x : Num) (h0 : 0 ≤ Num.toRat x) (h1 : Num.toRat x < 171) :
+    FACT [.num x] = .ok (.num (.int (((Num.toRat x).floor.toNat).factorial : Nat))) := by
+  have a : ¬ (Num.toRat x < 0) := not_lt.mpr h0
+  have b : ¬ ((171 : Rat) ≤ Num.toRat x) := not_le.mpr h1
+  simp only [FACT, parseNumber_num, factLimit_cast, a, b, decide_false, Bool.or_self, Bool.false_eq_true, if_false,
+    ratTrunc_nonneg _ h0, fact_eq]
+
+/-- FACTDOUBLE inside its range `0 ≤ x < 301`: the double factorial of the truncated number -/
+theorem factdouble_value (x : Num) (h0 : 0 ≤ Num.toRat x) (h1 : Num.toRat x < 301) :
+    FACTDOUBLE [.num x] = .ok (.num (.int (((Num.toRat x).floor.toNat).doubleFactorial : Nat))) := by
+  have a : ¬ (Num.toRat x < 0) := not_lt.mpr h0
+  have b : ¬ ((301 : Rat) ≤ Num.toRat x) := not_le.mpr h1
+  simp only [FACTDOUBLE, parseNumber_num, factdoubleLimit_cast, a, b, decide_false, Bool.or_self, Bool.false_eq_true,
+    if_false, ratTrunc_nonneg _ h0, dfact_eq]
+
+theorem floor_natCast (n : Nat) : (Num.toRat (.int (n : Int))).floor.toNat = n := by
+  simp only [Num.toRat, Rat.floor_intCast, Int.toNat_natCast]
+
+theorem fact_nat (n : Nat) (hn : n ≤ 170) : FACT [.num (.int n)] = .ok (.num (.int (n.factorial : Nat))) := by
+  have h0 : (0 : Rat) ≤ Num.toRat (.int (n : Int)) := by simp only [Num.toRat]; exact_mod_cast Int.natCast_nonneg n
+  have h1 : Num.toRat (.int (n : Int)) < 171 := by
+    simp only [Num.toRat]; have : (n : Int) < 171 := by omega
+    exact_mod_cast this
+  rw [fact_value _ h0 h1, floor_natCast]
+
+theorem factdouble_nat (n : Nat) (hn : n ≤ 300) :
+    FACTDOUBLE [.num (.int n)] = .ok (.num (.int (n.doubleFactorial : Nat))) := by
+  have h0 : (0 : Rat) ≤ Num.toRat (.int (n : Int)) := by simp only [Num.toRat]; exact_mod_cast Int.natCast_nonneg n
+  have h1 : Num.toRat (.int (n : Int)) < 301 := by
+    simp only [Num.toRat]; have : (n : Int) < 301 := by omega
+    exact_mod_cast this
+  rw [factdouble_value _ h0 h1, floor_natCast]
 
 theorem fact_neg (x : Num) (h : Num.toRat x < 0) :
     FACT [.num x] = .ok (.err .num) ∧ FACTDOUBLE [.num x] = .ok (.err .num) := by
   simp [FACT, FACTDOUBLE, parseNumber_num, h]
+
+/-- from 171 (resp. 301) on: `#NUM!`, whatever the size of the number — no factorial is computed -/
+theorem fact_big (x : Num) :
+    ((171 : Rat) ≤ Num.toRat x → FACT [.num x] = .ok (.err .num)) ∧
+    ((301 : Rat) ≤ Num.toRat x → FACTDOUBLE [.num x] = .ok (.err .num)) := by
+  constructor <;> intro h <;>
+    simp [FACT, FACTDOUBLE, parseNumber_num, factLimit_cast, factdoubleLimit_cast, h]
 
 theorem trunc_intCast (a : Int) : ratTrunc (a : Rat) = a := by
   unfold ratTrunc; split
@@ -491,13 +531,161 @@ theorem complex_parts (a b : Int) :
   simp [Eng.COMPLEX, parseNumber_num, bind, Except.bind, Eng.mkComplex, Eng.IMREAL, Eng.IMAGINARY, Eng.parseComplex,
     Num.toRat, trunc_intCast]
 
-/-- value of ROUNDUP / ROUNDDOWN for an int `digits` -/
-theorem roundDirFn_value (up : Bool) (x : Num) (d : Int) :
-    ∃ r : Num, roundDirFn up [.num x, .num (.int d)] = .ok (.num r) ∧ Num.toRat r = roundDir up (Num.toRat x) d := by
-  by_cases hd : d < 0
-  · exact ⟨.int (roundDirNeg up (Num.toRat x) d), by simp [roundDirFn, parseNumber_num, integral?, hd],
-      roundDirNeg_eq up _ d hd⟩
-  · exact ⟨.flt (roundDir up (Num.toRat x) d), by simp [roundDirFn, parseNumber_num, integral?, hd], rfl⟩
+-- `2 ^ 1024`, `10 ^ 1025`, `2 ^ 1074` appear as literals in the statements below
+set_option exponentiation.threshold 1200
 
+/-- `size` of `_place_beyond`: the bit length of an int, 0 for a float -/
+def numSize : Num → Int
+  | .int i => (Math.bitLength i : Int)
+  | .flt _ => 0
+
+/-- what the statements assume of a float argument: it is in the range of the doubles … -/
+def InDoubleRange (x : Num) : Prop := ∀ q, x = .flt q → |q| < 2 ^ 1024
+/-- … and (only needed for `digits > 1074`) a multiple of 2^-1074, as every double is -/
+def OnDoubleGrid (x : Num) : Prop := ∀ q, x = .flt q → ∃ m : Int, q = (m : Rat) / 2 ^ 1074
+
+/-- `_place_beyond` spelled out with the constants of the source (a float or int `digits`) -/
+theorem placeBeyond_iff (x dn : Num) :
+    placeBeyond x dn = true ↔ ((max 1024 (numSize x) : Int) : Rat) < -Num.toRat dn := by
+  cases x with
+  | int i =>
+    show decide (((max (1024 : Int) (Math.bitLength i : Int) : Int) : Rat) < -Num.toRat dn) = true ↔ _
+    simp only [decide_eq_true_eq, numSize]
+  | flt q =>
+    show decide (((max (1024 : Int) (0 : Int) : Int) : Rat) < -Num.toRat dn) = true ↔ _
+    simp only [decide_eq_true_eq, numSize]
+
+theorem placeBeyond_int (x : Num) (d : Int) :
+    placeBeyond x (.int d) = true ↔ max 1024 (numSize x) < -d := by
+  rw [placeBeyond_iff]
+  simp only [Num.toRat]
+  rw [← Int.cast_neg, Int.cast_lt]
+
+/-- `1 / pow10 d = 10 ^ (-d)` for a negative `d` -/
+theorem unit_neg (d : Int) (hd : d < 0) : 1 / pow10 d = (10 : Rat) ^ (-d).toNat := by
+  unfold pow10
+  rw [if_neg (by omega), one_div_one_div, Nat.cast_pow, Nat.cast_ofNat]
+
+/-- a number of size `s` (bit length of an int; a float in the double range with `s = 1024`) is
+    below `2 ^ s` in magnitude -/
+theorem abs_lt_two_pow (x : Num) (hx : InDoubleRange x) :
+    |Num.toRat x| < (2 : Rat) ^ (max 1024 (numSize x)).toNat := by
+  cases x with
+  | int i =>
+    simp only [Num.toRat, numSize]
+    have h1 : i.natAbs < 2 ^ Math.bitLength i := by
+      by_cases h0 : i = 0
+      · subst h0; decide
+      · exact (Lemmas.PowGuard.bitLength_spec i h0).2
+    have h2 : (2 : Nat) ^ Math.bitLength i ≤ 2 ^ (max 1024 (Math.bitLength i : Int)).toNat :=
+      Nat.pow_le_pow_right (by decide) (by omega)
+    have h3 : ((i.natAbs : Nat) : Rat) < ((2 ^ (max 1024 (Math.bitLength i : Int)).toNat : Nat) : Rat) := by
+      exact_mod_cast lt_of_lt_of_le h1 h2
+    rw [Nat.cast_natAbs, Nat.cast_pow, Nat.cast_ofNat] at h3
+    simpa using h3
+  | flt q =>
+    simp only [Num.toRat, numSize]
+    have : (max (1024 : Int) 0).toNat = 1024 := by decide
+    rw [this]
+    exact hx q rfl
+
+/-- where the place is beyond the number, one unit of it is more than twice the number (and at
+    least 10^1025) -/
+theorem beyond_magnitude (x : Num) (d : Int) (hb : placeBeyond x (.int d) = true) (hx : InDoubleRange x) :
+    d < 0 ∧ 2 * |Num.toRat x| < 1 / pow10 d ∧ (10 : Rat) ^ 1025 ≤ 1 / pow10 d := by
+  have hk := (placeBeyond_int x d).mp hb
+  have hd : d < 0 := by omega
+  rw [unit_neg d hd]
+  refine ⟨hd, ?_, ?_⟩
+  · have h1 := abs_lt_two_pow x hx
+    have h2 : (max 1024 (numSize x)).toNat + 1 ≤ (-d).toNat := by omega
+    have h3 : (2 : Rat) ^ ((max 1024 (numSize x)).toNat + 1) ≤ 2 ^ (-d).toNat :=
+      pow_le_pow_right₀ (by norm_num) h2
+    have h4 : (2 : Rat) ^ (-d).toNat ≤ 10 ^ (-d).toNat := pow_le_pow_left₀ (by norm_num) (by norm_num) _
+    rw [pow_succ] at h3
+    linarith
+  · exact pow_le_pow_right₀ (by norm_num) (by omega)
+
+/-- a multiple of 2^-1074 is a multiple of 10^-d for every d > 1074 -/
+theorem grid_multiple (q : Rat) (m : Int) (hq : q = (m : Rat) / 2 ^ 1074) (d : Int) (hd : 1074 < d) :
+    ∃ k : Int, q = (k : Rat) / pow10 d := by
+  obtain ⟨j, hj⟩ : ∃ j : Nat, d.toNat = 1074 + j := ⟨d.toNat - 1074, by omega⟩
+  refine ⟨m * 5 ^ 1074 * 10 ^ j, ?_⟩
+  rw [pow10_nonneg d (by omega), hq, hj]
+  have e : (((10 ^ (1074 + j) : Nat) : Int) : Rat) = 2 ^ 1074 * 5 ^ 1074 * 10 ^ j := by
+    push_cast
+    rw [pow_add, show (10 : Rat) = 2 * 5 by norm_num, mul_pow]
+  rw [e]
+  have h2 : (2 : Rat) ^ 1074 ≠ 0 := by positivity
+  rw [div_eq_div_iff h2 (by positivity)]
+  push_cast
+  ring
+
+/-- every number the statements are about is a multiple of 10^-d for d > 1074 -/
+theorem multiple_above (x : Num) (d : Int) (hd : 1074 < d) (hg : OnDoubleGrid x) :
+    ∃ k : Int, Num.toRat x = (k : Rat) / pow10 d := by
+  cases x with
+  | int i =>
+    refine ⟨i * ((10 ^ d.toNat : Nat) : Int), ?_⟩
+    have hp := pow10_pos d
+    rw [pow10_nonneg d (by omega)] at hp ⊢
+    simp only [Num.toRat]
+    push_cast at hp ⊢
+    field_simp
+  | flt q =>
+    obtain ⟨m, hm⟩ := hg q rfl
+    exact grid_multiple q m hm d hd
+
+/-- value of ROUNDUP / ROUNDDOWN for an int `digits` between the guards -/
+theorem roundDirFn_value (up : Bool) (x : Num) (d : Int) (h1 : d ≤ 1074) (h2 : placeBeyond x (.int d) = false) :
+    ∃ r : Num, roundDirFn up [.num x, .num (.int d)] = .ok (.num r) ∧ Num.toRat r = roundDir up (Num.toRat x) d := by
+  have a : ¬ ((1074 : Rat) < (d : Rat)) := by
+    have : ¬ ((1074 : Int) < d) := by omega
+    exact_mod_cast this
+  by_cases hd : d < 0
+  · exact ⟨.int (roundDirNeg up (Num.toRat x) d),
+      by simp [roundDirFn, parseNumber_num, integral?, hd, roundDirMax_cast, Num.toRat, a, h2],
+      roundDirNeg_eq up _ d hd⟩
+  · exact ⟨.flt (roundDir up (Num.toRat x) d),
+      by simp [roundDirFn, parseNumber_num, integral?, hd, roundDirMax_cast, Num.toRat, a, h2], rfl⟩
+
+/-- beyond the upper guard (`digits > 1074`, int or float): the number itself, of the same kind -/
+theorem roundDirFn_above (up : Bool) (x dn : Num) (h : 1074 < Num.toRat dn) :
+    roundDirFn up [.num x, .num dn] = .ok (.num x) := by
+  simp only [roundDirFn, parseNumber_num, roundDirMax_cast, if_pos h]
+
+/-- a place beyond the number (int or float `digits`): `number * 0`, except ROUNDUP of a non-zero
+    number, which is `#NUM!` -/
+theorem roundDirFn_beyond (up : Bool) (x dn : Num) (h : placeBeyond x dn = true) :
+    roundDirFn up [.num x, .num dn] =
+      if up = true ∧ Num.toRat x ≠ 0 then .ok (.err .num) else .ok (.num (mulZero x)) := by
+  have hneg : Num.toRat dn < 0 := by
+    have := (placeBeyond_iff x dn).mp h
+    have h1024 : ((1024 : Int) : Rat) ≤ ((max 1024 (numSize x) : Int) : Rat) := by exact_mod_cast le_max_left _ _
+    have : (1024 : Rat) < -Num.toRat dn := lt_of_le_of_lt (by simp) this
+    linarith
+  have a : ¬ ((1074 : Rat) < Num.toRat dn) := by linarith
+  simp only [roundDirFn, parseNumber_num, roundDirMax_cast, if_neg a, h, if_true]
+  by_cases hz : Num.toRat x = 0
+  · have : Num.isZero x = true := (isZero_iff x).mpr hz
+    simp [this, hz]
+  · have : Num.isZero x = false := by
+      cases hb : Num.isZero x
+      · rfl
+      · exact absurd ((isZero_iff x).mp hb) hz
+    cases up <;> simp [this, hz]
+
+theorem toRat_mulZero (x : Num) : Num.toRat (mulZero x) = 0 := by
+  cases x <;> simp [mulZero, Num.toRat]
+
+/-- ROUND where the place is not beyond the number: Python's `round` -/
+theorem round_value (x : Num) (d : Int) (h : placeBeyond x (.int d) = false) :
+    ROUND [.num x, .num (.int d)] = .ok (.num (pyRound x d)) := by
+  simp [ROUND, parseNumber_num, h]
+
+/-- ROUND where the place is beyond the number (int or float `digits`): `number * 0` -/
+theorem round_beyond (x dn : Num) (h : placeBeyond x dn = true) :
+    ROUND [.num x, .num dn] = .ok (.num (mulZero x)) := by
+  simp only [ROUND, parseNumber_num, h, if_true]
 
 end HotXL.Lemmas.Round
